@@ -114,3 +114,23 @@ func scaleContinue(n int) string {
 	fmt.Fprintf(&b, "kept = 0;\n%s (%s j = 0; j < %d; j = j + 1) {\n  %s (j %% %d != 0) %s;\n  kept = kept + 1;\n}\n%s kept;\n%s \"done\";\n", bn.KwFor, bn.KwVar, n, bn.KwIf, n/3+1, bn.KwContinue, P, P)
 	return b.String()
 }
+
+// scaleLadder: one flat else-if ladder of n rungs (nesting depth of the program: 2), walked by a loop whose values
+// hit the first, a middle and the last rung and the final else.
+func scaleLadder(n int, braced bool) string {
+	var b strings.Builder
+	fmt.Fprintf(&b, "%s hits = [0, %d, %d, %d];\n%s (%s i = 0; i < 4; i = i + 1) {\n  %s v = hits[i];\n", bn.KwVar, n/2, n-1, n+5, bn.KwFor, bn.KwVar, bn.KwVar)
+	for r := 0; r < n; r++ {
+		kw := "  " + bn.KwIf
+		if r > 0 {
+			kw = "  " + bn.KwElse + " " + bn.KwIf
+		}
+		if braced {
+			fmt.Fprintf(&b, "%s (v == %d) { %s \"rung %d\"; }\n", kw, r, bn.KwPrint, r)
+		} else {
+			fmt.Fprintf(&b, "%s (v == %d) %s \"rung %d\";\n", kw, r, bn.KwPrint, r)
+		}
+	}
+	fmt.Fprintf(&b, "  %s { %s \"no rung\"; %s; }\n  %s \"after ladder\";\n}\n%s \"end\";\n", bn.KwElse, bn.KwPrint, bn.KwBreak, bn.KwPrint, bn.KwPrint)
+	return b.String()
+}
